@@ -33,6 +33,11 @@ pub struct Profile {
     pub colliding_keys: bool,
     pub updates: bool,
     pub text_cols: bool,
+    /// text values of several kilobytes (log spills over blocks, rows need overflow pages)
+    pub big_text: bool,
+    /// a burst of this many autocommit reads somewhere in the history: each logs BEGIN/COMMIT/END,
+    /// so the log grows past its first 40 KiB block without growing the tables
+    pub read_burst: u32,
     pub guards: Vec<String>,
 }
 
@@ -60,6 +65,8 @@ impl Profile {
             colliding_keys: false,
             updates: true,
             text_cols: true,
+            big_text: false,
+            read_burst: 0,
             guards: default_guards(),
         }
     }
@@ -83,6 +90,8 @@ pub fn default_guards() -> Vec<String> {
         "delete_of_updated_row_in_multi_statement_txn", // D25
         "ddl_concurrent_with_open_session",      // F2
         "null_in_unique_column",                 // F1
+        "collision_with_key_of_rolled_back_insert", // U1
+        "unique_key_reuse_while_session_open",   // U2
         "arithmetic_update_on_indexed_table",    // D24
         "more_than_18_inserts_per_table",        // D9, D15
         "more_than_3_relations",                 // D15, F3 (tables + indexes)
@@ -112,6 +121,8 @@ pub struct Gen {
     updated_tables: BTreeSet<String>,
     /// true while statements of a batch are being generated
     in_batch: bool,
+    /// (table, rendered key) of rows a failed multi-row insert may have left behind
+    poisoned: BTreeSet<(String, String)>,
 }
 
 pub fn pick_cfg(rng: &mut Rng) -> Cfg {
@@ -142,6 +153,7 @@ impl Gen {
             sess_deleted: BTreeMap::new(),
             updated_tables: BTreeSet::new(),
             in_batch: false,
+            poisoned: BTreeSet::new(),
         }
     }
 
@@ -230,7 +242,15 @@ impl Gen {
                     if self.rng.chance(8) { Val::Null } else { Val::I(self.fresh_val()) }
                 }
                 _ => {
-                    if self.rng.chance(10) { Val::Null } else { Val::T(format!("s{:05}", self.fresh_val())) }
+                    if self.rng.chance(10) {
+                        Val::Null
+                    } else if self.p.big_text {
+                        let n = self.fresh_val();
+                        let len = self.rng.range(1500, 7000) as usize;
+                        Val::T(format!("s{:05}{}", n, "x".repeat(len)))
+                    } else {
+                        Val::T(format!("s{:05}", self.fresh_val()))
+                    }
                 }
             })
             .collect();
@@ -238,6 +258,31 @@ impl Gen {
             .enumerate()
             .map(|(i, v)| if v.is_null() && no_null_unique && in_unique.contains(&i) { Val::I(self.fresh_val()) } else { v })
             .collect()
+    }
+
+    fn key_str(vals: &[Val], cols: &[usize]) -> String {
+        cols.iter().map(|c| vals[*c].render()).collect::<Vec<_>>().join("|")
+    }
+
+    /// Does `row` carry, for some unique constraint of the table, a key that any row ever
+    /// written to the table (whatever became of it) carried?
+    fn key_used_before(&self, ti: usize, row: &[Val]) -> bool {
+        let t = &self.model.tables[ti];
+        t.uniques.iter().any(|u| {
+            let k = Self::key_str(row, &u.cols);
+            self.poisoned.contains(&(t.name.clone(), format!("{}:{k}", u.name)))
+                || t.rows.iter().any(|r| r.versions.iter().any(|v| Self::key_str(&v.vals, &u.cols) == k))
+        })
+    }
+
+    /// Key of `row` equals the key of a row whose insert was rolled back (or left behind by a failed statement).
+    fn key_of_rolled_back_insert(&self, ti: usize, row: &[Val]) -> bool {
+        let t = &self.model.tables[ti];
+        t.uniques.iter().any(|u| {
+            let k = Self::key_str(row, &u.cols);
+            self.poisoned.contains(&(t.name.clone(), format!("{}:{k}", u.name)))
+                || t.rows.iter().any(|r| self.model.txs[r.creator].status == TxStatus::Aborted && r.versions.iter().any(|v| Self::key_str(&v.vals, &u.cols) == k))
+        })
     }
 
     fn gen_pred(&mut self, tx: Tx, ti: usize) -> Option<Pred> {
@@ -314,6 +359,12 @@ impl Gen {
                 }
                 let n = (if self.rng.chance(30) { self.rng.range(2, 3) } else { 1 }).min(room as u64);
                 let rows: Vec<Vec<Val>> = (0..n).map(|_| self.gen_row(ti)).collect();
+                if self.p.has("unique_key_reuse_while_session_open") && (!self.sess.is_empty() || self.in_batch) && rows.iter().any(|r| self.key_used_before(ti, r)) {
+                    continue;
+                }
+                if self.p.has("collision_with_key_of_rolled_back_insert") && rows.iter().any(|r| self.key_of_rolled_back_insert(ti, r)) {
+                    continue;
+                }
                 Stmt::Insert { table: t.name.clone(), rows }
             } else if kind < 8 || !self.p.updates {
                 if self.p.has("delete_after_rolled_back_delete") && self.delete_rolled_back.contains(&t.name) {
@@ -440,9 +491,18 @@ impl Gen {
                         None => return None,
                     }
                 }
+                if self.p.has("collision_with_key_of_rolled_back_insert") && self.key_of_rolled_back_insert(ti, &r) {
+                    return None;
+                }
                 let multi = self.rng.chance(40) && !(in_session && self.p.has("failing_multi_row_statement_in_session"));
                 let stmt = if multi {
                     let good = self.gen_row(ti);
+                    if self.key_used_before(ti, &good) {
+                        return None;
+                    }
+                    for u in &t.uniques {
+                        self.poisoned.insert((t.name.clone(), format!("{}:{}", u.name, Self::key_str(&good, &u.cols))));
+                    }
                     Stmt::Insert { table: t.name.clone(), rows: vec![good, r] }
                 } else {
                     Stmt::Insert { table: t.name.clone(), rows: vec![r] }
@@ -462,6 +522,25 @@ impl Gen {
         if matches!(exp, Expect::Fail(_)) { Some(stmt) } else { None }
     }
 
+    fn poison_rejected_inserts(&mut self, tx: Tx, stmts: &[Stmt]) {
+        // rows of a rejected INSERT may stay behind physically (findings D23 / U1): remember their keys
+        for s in stmts {
+            if let Stmt::Insert { table, rows } = s {
+                if let Some(ti) = self.model.find_table(tx, table) {
+                    let t = self.model.tables[ti].clone();
+                    for r in rows {
+                        if r.len() != t.cols.len() {
+                            continue;
+                        }
+                        for u in &t.uniques {
+                            self.poisoned.insert((t.name.clone(), format!("{}:{}", u.name, Self::key_str(r, &u.cols))));
+                        }
+                    }
+                }
+            }
+        }
+    }
+
     fn emit(&mut self, ev: Event) {
         // keep the generator's model in step (assuming a correct engine)
         match &ev {
@@ -469,6 +548,7 @@ impl Gen {
                 let tx = self.model.begin();
                 let e = self.model.run(tx, s, false);
                 if matches!(e, Expect::Fail(_)) {
+                    self.poison_rejected_inserts(tx, std::slice::from_ref(s));
                     self.model.abort(tx);
                 } else {
                     self.model.run(tx, s, true);
@@ -490,6 +570,9 @@ impl Gen {
                     m2.commit(tx);
                     self.model = m2;
                 } else {
+                    let tx0 = self.model.begin();
+                    self.poison_rejected_inserts(tx0, ss);
+                    self.model.abort(tx0);
                     // deletes of a failed batch are rolled back (finding D27 guard)
                     for s in ss {
                         if let Stmt::Delete { table, .. } = s {
@@ -506,6 +589,8 @@ impl Gen {
                 let tx = self.sess[k];
                 if !matches!(self.model.run(tx, s, false), Expect::Fail(_)) {
                     self.model.run(tx, s, true);
+                } else {
+                    self.poison_rejected_inserts(tx, std::slice::from_ref(s));
                 }
             }
             Event::Commit(k) => {
@@ -561,15 +646,45 @@ impl Gen {
         let ts = self.visible_tables(tx);
         self.model.abort(tx);
         let n0 = self.rng.range(1, 3);
-        let rows: Vec<Vec<Val>> = (0..n0).map(|_| self.gen_row(ts[0])).collect();
+        let mut rows: Vec<Vec<Val>> = vec![];
+        for _ in 0..n0 {
+            let r = self.gen_row(ts[0]);
+            let tx = self.model.begin();
+            let mut trial = rows.clone();
+            trial.push(r.clone());
+            let ok = !matches!(self.model.run(tx, &Stmt::Insert { table: "t0".into(), rows: trial }, false), Expect::Fail(_));
+            self.model.abort(tx);
+            if ok {
+                rows.push(r);
+            }
+        }
+        if rows.is_empty() {
+            rows.push(self.gen_row(ts[0]));
+        }
         *self.inserted.entry("t0".into()).or_insert(0) += rows.len() as u32;
         self.emit(Event::Auto(Stmt::Insert { table: "t0".into(), rows }));
 
         let n_events = self.rng.range(self.p.min_events as u64, self.p.max_events as u64) as usize;
         let total_w = self.p.w_session + self.p.w_auto + self.p.w_batch + self.p.w_check + self.p.w_flush + self.p.w_reopen + self.p.w_vacuum + self.p.w_ddl + self.p.w_failing;
         let mut guard = 0;
-        while self.events.len() < n_events && guard < n_events * 20 {
+        let burst_at = if self.p.read_burst > 0 { self.rng.below(n_events as u64) as usize } else { usize::MAX };
+        let mut burst_done = false;
+        let mut emitted_main = 0usize;
+        while emitted_main < n_events && guard < n_events * 20 {
             guard += 1;
+            emitted_main = self.events.len() - if burst_done { self.p.read_burst as usize } else { 0 };
+            if !burst_done && emitted_main >= burst_at {
+                burst_done = true;
+                for _ in 0..self.p.read_burst {
+                    let tx = self.model.begin();
+                    let s = self.gen_read(tx);
+                    self.model.abort(tx);
+                    if let Some(s) = s {
+                        self.emit(Event::Auto(s));
+                    }
+                }
+                continue;
+            }
             let mut r = self.rng.below(total_w as u64) as u32;
             macro_rules! take {
                 ($w:expr) => {{
@@ -628,8 +743,13 @@ impl Gen {
                 }
                 if self.p.w_failing > 0 && self.rng.chance(25) {
                     if let Some(s) = self.gen_failing(tx, false) {
-                        let pos = self.rng.below(ss.len() as u64 + 1) as usize;
-                        ss.insert(pos, s);
+                        // appended where it was validated (the model state at any earlier position differs)
+                        ss.push(s);
+                        if self.rng.chance(50) {
+                            if let Some(r) = self.gen_read(tx) {
+                                ss.push(r);
+                            }
+                        }
                     }
                 }
                 self.model = saved;
@@ -640,7 +760,9 @@ impl Gen {
             } else if take!(self.p.w_check) {
                 self.emit(Event::Check);
             } else if take!(self.p.w_flush) {
-                if self.p.has("checkpoint_with_open_txn") && !self.sess.is_empty() {
+                // F4: no checkpoint while an open transaction has uncommitted changes
+                // (idle sessions may stay open across it)
+                if self.p.has("checkpoint_with_open_txn") && self.sess.values().any(|tx| self.model.txs[*tx].writes > 0) {
                     continue;
                 }
                 self.emit(Event::Flush);
